@@ -81,7 +81,8 @@ def proc_ppid(pid):
 
 class Server:
     def __init__(self, worker_class="sync", workers=1, graceful=3, bind="unix", pidfile=True, marker="m0", threads=2,
-                 keepalive=2, timeout=30, daemon=False, extra=None, dash_m=False, app_prelude="", second_bind=False):
+                 keepalive=2, timeout=30, daemon=False, extra=None, dash_m=False, app_prelude="", second_bind=False,
+                 app_in_conf=False):
         self.dir = tempfile.mkdtemp(prefix="srv-", dir=str(scratch_root()))
         self.worker_class = worker_class
         self.bind = bind
@@ -99,6 +100,10 @@ class Server:
         self.daemon = daemon
         self.dash_m = dash_m
         self.second_bind = second_bind              # a second listener (unix socket) on which nothing ever arrives
+        self.app_in_conf = app_in_conf              # the application is named by `wsgi_app` in the configuration file, not on the
+        #                                             command line; gvapp2.py is the same application with "-app2" added to its marker
+        if app_in_conf:
+            self.settings["wsgi_app"] = "gvapp:app"
         self.cli_loglevel = "info"                  # the --log-level of the command line (None: leave it to the configuration file)
         self.proc = None
         self.master = None
@@ -106,6 +111,8 @@ class Server:
             fh.write(LAUNCH_SRC)
         with open(os.path.join(self.dir, "gvapp.py"), "w") as fh:
             fh.write(app_prelude + APP_SRC)
+        with open(os.path.join(self.dir, "gvapp2.py"), "w") as fh:
+            fh.write(app_prelude + APP_SRC.replace('os.environ.get("GV_MARKER", "-")', 'os.environ.get("GV_MARKER", "-") + "-app2"'))
         self.write_conf()
 
     def write_conf(self, **changes):
@@ -130,7 +137,8 @@ class Server:
             args += ["-p", self.pidfile]
         if self.daemon:
             args += ["--daemon"]
-        args += ["gvapp:app"]
+        if not self.app_in_conf:
+            args += ["gvapp:app"]
         self.proc = subprocess.Popen(args, cwd=self.dir, env=env, stdout=subprocess.DEVNULL, stderr=subprocess.DEVNULL,
                                      start_new_session=True)
         t0 = time.time()
